@@ -1,3 +1,4 @@
+import Hannibal.Props.C04PCurrent
 import Hannibal.Props.C04Current
 import Hannibal.Props.C04QCurrent
 #print axioms Hannibal.C04_holds
@@ -7,3 +8,5 @@ import Hannibal.Props.C04QCurrent
 #print axioms Hannibal.C04q_current
 #print axioms Hannibal.wellWired04q_current
 #print axioms Hannibal.monC04q_step
+#print axioms Hannibal.C04p_holds
+#print axioms Hannibal.C04p_current
